@@ -15,7 +15,9 @@ Definition DT (y m d : N) : date := {| d_y := y; d_m := m; d_d := d |}.
 Definition XA (ng : bool) (m : N) (s : nat) (ccy : str) : xamount := {| xa_value := mkd ng m s; xa_ccy := ccy |}.
 Definition CR (a : xamount) (cd : cdind) (incl : bool) : charge_record :=
   {| cr_amount := a; cr_cd := cd; cr_included := incl |}.
-Definition FR (p a : option str) (cl : bool) : fragment := {| f_payee := p; f_account := a; f_cleared := cl |}.
+(* the rules of the C18 statements capture no code (C17 runs those) *)
+Definition FR (p a : option str) (cl : bool) : fragment :=
+  {| f_payee := p; f_account := a; f_cleared := cl; f_code := None |}.
 Definition CX (src tgt : str) (ng : bool) (m : N) (s : nat) : cexchange :=
   {| cx_src := src; cx_tgt := tgt; cx_rate := mkd ng m s |}.
 Definition AD (a : xamount) (x : option cexchange) : amount_details := {| ad_amount := a; ad_exchange := x |}.
